@@ -792,7 +792,32 @@ fn exec_case(case: &Case) -> Outcome {
             }
             db.st.panic_node.store(0, Ordering::SeqCst);
             trace::note("sequential");
-            check_all_sequential(&db, &want, "after the panic", &mut out);
+            // KNOWN FINDING (C22, /verif/corpus/C22/poisoned_cycle_head.prog): a panic below a
+            // fixpoint cycle head leaves a poisoned provisional memo; every later request of the
+            // cycle in the SAME revision (same cancellation count) throws PropagatedPanic from
+            // `fetch_cold_cycle`, single-threaded, until the revision or the count changes.
+            // Same-revision retries that touch such a cycle are therefore only counted (strict
+            // with `--strict`); after a synthetic write everything must equal the oracle.
+            let cyc = cyclic_nodes(&case.prog, &ins);
+            let poisonable: Vec<usize> = cyc
+                .iter()
+                .copied()
+                .filter(|&c| case.prog.nodes[c].kind.disables_local_cancellation() && reach[c][*node])
+                .collect();
+            for (n, w) in want.iter().enumerate() {
+                let r = request(&db, n);
+                if agrees(&r, *w) {
+                    continue;
+                }
+                let tolerated = !strict() && r == Res::PropagatedPanic && poisonable.iter().any(|&p| reach[n][p]);
+                if tolerated {
+                    out.note("known_poisoned_cycle_retry");
+                } else {
+                    out.fail("oracle", format!("after the panic: node {n} = {} want {}", r.show(), fmt_out(*w)));
+                }
+            }
+            apply_write(&mut db, &mut ins, &Write::Synthetic);
+            check_all_sequential(&db, &want, "after the panic and a new revision", &mut out);
         }
         Spec::Alloc { ops } => {
             let want = oracle(&case.prog, &ins);
@@ -886,7 +911,11 @@ fn exec_case(case: &Case) -> Outcome {
 fn check_trace(case: &Case, exec_rounds: &[bool], out: &mut Outcome) {
     // dependency graph / sync: model replay + invariants
     match dg_model::replay(&out.trace) {
-        Ok(_) => {}
+        Ok(st) => {
+            for _ in 0..st.w4_precondition_violations {
+                out.note("w4_precondition_violations");
+            }
+        }
         Err(e) => {
             let summary = format!("trace line {}: {} [{}]", e.line_no, e.what, e.line);
             out.fail(e.kind, summary);
@@ -903,7 +932,7 @@ fn check_trace(case: &Case, exec_rounds: &[bool], out: &mut Outcome) {
     if !exec_rounds.is_empty() {
         let mut round: Option<usize> = None;
         let mut cnt: HashMap<String, usize> = HashMap::new();
-        let mut flush = |round: Option<usize>, cnt: &mut HashMap<String, usize>, out: &mut Outcome| {
+        let flush = |round: Option<usize>, cnt: &mut HashMap<String, usize>, out: &mut Outcome| {
             if let Some(r) = round {
                 if exec_rounds.get(r).copied().unwrap_or(false) {
                     for (k, c) in cnt.iter() {
@@ -1141,6 +1170,7 @@ fn check_alloc_trace(trace: &[String], out: &mut Outcome) {
 // running a case: shuttle / threads
 // ------------------------------------------------------------------------------------------------
 
+#[allow(dead_code)]
 struct Opts {
     replay_dir: String,
     trace_out: Option<String>,
@@ -1151,11 +1181,30 @@ struct Opts {
 }
 
 static LAST_PANIC: Mutex<String> = Mutex::new(String::new());
+static STRICT: AtomicBool = AtomicBool::new(false);
+/// what a shuttle execution does with its outcome: panic on failure (default; persists the
+/// schedule), never panic (warm-up, replays), always panic (schedule capture for the self-test)
+#[allow(dead_code)]
+static FAIL_MODE: std::sync::atomic::AtomicU8 = std::sync::atomic::AtomicU8::new(FAIL_ON_FAILURE);
+#[allow(dead_code)]
+const FAIL_ON_FAILURE: u8 = 0;
+#[allow(dead_code)]
+const FAIL_IGNORE: u8 = 1;
+#[allow(dead_code)]
+const FAIL_ALWAYS: u8 = 2;
+/// a case is executing (panics are expected / reported through CONC-FAIL)
+static IN_CASE: AtomicBool = AtomicBool::new(false);
+
+/// `--strict`: known findings count as failures.
+fn strict() -> bool {
+    STRICT.load(Ordering::Relaxed)
+}
 
 #[cfg(feature = "shuttle")]
 fn shuttle_config(opts: &Opts) -> shuttle::Config {
     let mut config = shuttle::Config::default();
     config.stack_size = 2 * 1024 * 1024;
+    config.silence_warnings = true;
     config.max_steps = shuttle::MaxSteps::FailAfter(400_000);
     let dir = std::path::PathBuf::from(&opts.replay_dir).join("schedules");
     let _ = std::fs::create_dir_all(&dir);
@@ -1196,8 +1245,12 @@ fn run_shuttle<S: shuttle::scheduler::Scheduler + 'static>(
                 let o = exec_case(&case);
                 let failed = !o.failures.is_empty();
                 outs.lock().unwrap().push(o);
-                if failed {
-                    panic!("conc: case failed (see CONC-FAIL)");
+                // a panic makes shuttle persist the schedule of this execution
+                match FAIL_MODE.load(Ordering::Relaxed) {
+                    FAIL_IGNORE => {}
+                    FAIL_ALWAYS => panic!("conc: schedule capture"),
+                    _ if failed => panic!("conc: case failed (see CONC-FAIL)"),
+                    _ => {}
                 }
             });
         }))
@@ -1211,7 +1264,7 @@ fn run_shuttle<S: shuttle::scheduler::Scheduler + 'static>(
         };
         let schedule = newest_schedule(opts);
         match v.last_mut() {
-            Some((o, s)) if !o.failures.is_empty() => *s = schedule,
+            Some((o, s)) if !o.failures.is_empty() || msg.contains("conc: schedule capture") => *s = schedule,
             _ => {
                 // the execution itself died: deadlock, step bound, or an unexpected panic
                 let mut o = Outcome::default();
@@ -1248,7 +1301,42 @@ fn replay_case(case: Arc<Case>, schedule: &str, opts: &Opts) -> Vec<(Outcome, Op
     if schedule == "-" || schedule.is_empty() {
         return run_case(case, opts);
     }
-    run_shuttle(&case, shuttle::scheduler::ReplayScheduler::new_from_encoded(schedule), opts)
+    FAIL_MODE.store(FAIL_IGNORE, Ordering::Relaxed);
+    // the recorded schedule stops at the panic that persisted it (end of the execution closure,
+    // or the deadlock); the few shutdown steps after that point are not part of it
+    let mut scheduler = shuttle::scheduler::ReplayScheduler::new_from_encoded(schedule);
+    scheduler.set_allow_incomplete();
+    let v = run_shuttle(&case, scheduler, opts);
+    FAIL_MODE.store(FAIL_ON_FAILURE, Ordering::Relaxed);
+    v
+}
+
+/// `--selftest-replay`: capture the schedule of every case (forced panic at the end of the
+/// execution) and replay it; the replayed hook trace must be identical.
+#[cfg(feature = "shuttle")]
+fn selftest_replay(cases: Vec<Arc<Case>>, opts: &Opts) {
+    let (mut same, mut differ, mut no_schedule) = (0, 0, 0);
+    for case in cases {
+        FAIL_MODE.store(FAIL_ALWAYS, Ordering::Relaxed);
+        let first = run_case(case.clone(), opts);
+        FAIL_MODE.store(FAIL_ON_FAILURE, Ordering::Relaxed);
+        let Some((o1, Some(schedule))) = first.into_iter().last() else {
+            no_schedule += 1;
+            continue;
+        };
+        let second = replay_case(case.clone(), &schedule, opts);
+        let key = canon_trace;
+        match second.last() {
+            Some((o2, _)) if key(&o1.trace) == key(&o2.trace) && !o1.trace.is_empty() => same += 1,
+            Some((o2, _)) => {
+                differ += 1;
+                let path = write_replay(&case, o2, &Some(schedule), opts);
+                println!("CONC-SELFTEST differ case={} replay={path} lines {} vs {}", case.index, o1.trace.len(), o2.trace.len());
+            }
+            None => differ += 1,
+        }
+    }
+    println!("CONC-SELFTEST mode={MODE} replayed_identically={same} differ={differ} no_schedule={no_schedule}");
 }
 
 /// Touches every ingredient once so that the process-global ingredient caches are warm (a schedule
@@ -1263,7 +1351,9 @@ fn warm_up(opts: &Opts) {
         Spec::Alloc { ops },
     ] {
         let case = Arc::new(Case { scenario: "warmup".into(), index: 0, case_seed: 1, prog: prog.clone(), ins0: vec![3], spec });
+        FAIL_MODE.store(FAIL_IGNORE, Ordering::Relaxed);
         let v = run_shuttle(&case, shuttle::scheduler::RandomScheduler::new_from_seed(1, 1), opts);
+        FAIL_MODE.store(FAIL_ON_FAILURE, Ordering::Relaxed);
         for (o, _) in v {
             for f in o.failures {
                 eprintln!("warm-up failure: {} {}", f.kind, f.summary);
@@ -1334,10 +1424,31 @@ fn warm_up(_opts: &Opts) {}
 // main
 // ------------------------------------------------------------------------------------------------
 
-fn trace_hash(trace: &[String]) -> u64 {
+/// Trace without `note` lines and with handle ids (process-global) renamed in first-seen order.
+fn canon_trace(t: &[String]) -> Vec<String> {
+    let mut names: HashMap<String, usize> = HashMap::new();
+    t.iter()
+        .filter(|l| !l.starts_with("note ") && l.as_str() != "reset")
+        .map(|l| {
+            l.split(' ')
+                .map(|tok| {
+                    if tok.len() > 1 && tok.starts_with('h') && tok[1..].bytes().all(|b| b.is_ascii_digit()) {
+                        let n = names.len();
+                        format!("h#{}", names.entry(tok.to_string()).or_insert(n))
+                    } else {
+                        tok.to_string()
+                    }
+                })
+                .collect::<Vec<_>>()
+                .join(" ")
+        })
+        .collect()
+}
+
+fn trace_hash(trace: &[String], with_alloc: bool) -> u64 {
     let mut s = String::new();
     for l in trace {
-        if l.starts_with("dg ") || l.starts_with("sync ") {
+        if l.starts_with("dg ") || l.starts_with("sync ") || (with_alloc && l.starts_with("alloc ")) {
             s.push_str(l);
             s.push('\n');
         }
@@ -1349,7 +1460,7 @@ fn write_replay(case: &Case, o: &Outcome, schedule: &Option<String>, opts: &Opts
     let _ = std::fs::create_dir_all(&opts.replay_dir);
     let path = format!("{}/{}-{}-{}-{}.replay", opts.replay_dir, case.scenario, MODE, opts.seed, case.index);
     let mut s = format!(
-        "scenario={}\nmode={MODE}\nseed={}\ncase={}\ncase_seed={}\nschedule={}\n",
+        "scenario={}\nmode={MODE}\nseed={}\ncase={}\ncase_seed={}\n--- schedule\n{}\n",
         case.scenario,
         opts.seed,
         case.index,
@@ -1375,8 +1486,62 @@ fn write_replay(case: &Case, o: &Outcome, schedule: &Option<String>, opts: &Opts
     path
 }
 
+
+/// `conc probe --prog FILE --script "panic 0 exit; get 2; clear; get 2; set 0 5; synth; get 2"`:
+/// single-threaded, deterministic; prints the implementation's answer and the oracle's per step.
+/// Used to minimise findings.
+fn probe(args: &Args) {
+    let text = std::fs::read_to_string(args.get("--prog").expect("--prog FILE")).expect("program file");
+    let prog = Program::parse(&text).expect("program text");
+    let mut ins: Vec<u8> = args
+        .get("--inputs")
+        .map(|s| s.split(',').map(|v| v.parse().unwrap()).collect())
+        .unwrap_or_else(|| vec![0; prog.n_inputs]);
+    ins.resize(prog.n_inputs, 0);
+    let mut db = Db::new(prog.clone(), &ins);
+    for step in args.get("--script").unwrap_or("").split(';') {
+        let t: Vec<&str> = step.split_whitespace().collect();
+        match t.as_slice() {
+            ["get", n] => {
+                let n: usize = n.parse().unwrap();
+                let r = request(&db, n);
+                println!("get {n} = {} (oracle {})", r.show(), fmt_out(oracle(&prog, &ins)[n]));
+            }
+            ["panic", n, rest @ ..] => {
+                db.st.panic_at_exit.store(rest.first() == Some(&"exit"), Ordering::SeqCst);
+                db.st.panic_node.store(n.parse::<usize>().unwrap() + 1, Ordering::SeqCst);
+                println!("panic armed at node {n}");
+            }
+            ["clear"] => {
+                db.st.panic_node.store(0, Ordering::SeqCst);
+                println!("panic cleared");
+            }
+            ["set", i, v] => {
+                let (i, v): (usize, u8) = (i.parse().unwrap(), v.parse().unwrap());
+                apply_write(&mut db, &mut ins, &Write::Set(i, v));
+                println!("set {i} {v}");
+            }
+            ["synth"] => {
+                apply_write(&mut db, &mut ins, &Write::Synthetic);
+                println!("synthetic write");
+            }
+            ["cancel"] => {
+                salsa::Database::cancellation_token(&db).cancel();
+                println!("cancel()");
+            }
+            [] => {}
+            other => println!("bad step {other:?}"),
+        }
+    }
+}
+
 fn main() {
     let args = Args::from_env();
+    if args.0.first().map(String::as_str) == Some("probe") {
+        std::panic::set_hook(Box::new(|_| {}));
+        probe(&args);
+        return;
+    }
     let scenario = match args.0.first() {
         Some(s) if !s.starts_with("--") => s.clone(),
         _ => {
@@ -1402,20 +1567,24 @@ fn main() {
         seed: args.num("--seed", std::env::var("VERIF_SEED").ok().and_then(|s| s.parse().ok()).unwrap_or(1)),
     };
     let cases = args.num("--cases", 100) as usize;
+    STRICT.store(args.flag("--strict"), Ordering::Relaxed);
 
     // expected panics (cycle panics, injected panics) stay quiet; the message is kept for reports
     let default_hook = std::panic::take_hook();
     let verbose = args.flag("--verbose");
     std::panic::set_hook(Box::new(move |info| {
         *LAST_PANIC.lock().unwrap_or_else(|e| e.into_inner()) = info.to_string().lines().next().unwrap_or("").to_string();
-        if verbose {
+        if verbose || (!IN_CASE.load(Ordering::Relaxed) && std::thread::current().name() == Some("main")) {
             default_hook(info);
         }
     }));
 
+    IN_CASE.store(true, Ordering::Relaxed);
     warm_up(&opts);
+    IN_CASE.store(false, Ordering::Relaxed);
 
     let mut todo: Vec<(Arc<Case>, Option<String>)> = Vec::new();
+    let mut recorded_trace: Option<Vec<String>> = None;
     if let Some(file) = args.get("--replay") {
         let text = std::fs::read_to_string(file).expect("replay file");
         let field = |k: &str| text.lines().find_map(|l| l.strip_prefix(&format!("{k}="))).map(str::to_string);
@@ -1428,13 +1597,30 @@ fn main() {
         if want_prog != case.prog.to_text() {
             eprintln!("warning: regenerated program differs from the one in the replay file (generator changed?)");
         }
-        todo.push((Arc::new(case), Some(field("schedule").unwrap_or_else(|| "-".into()))));
+        let schedule = text
+            .split("--- schedule\n")
+            .nth(1)
+            .and_then(|r| r.split("\n---").next())
+            .unwrap_or("-")
+            .trim()
+            .to_string();
+        recorded_trace = text
+            .split("--- trace\n")
+            .nth(1)
+            .map(|t| t.lines().map(str::to_string).collect::<Vec<_>>());
+        todo.push((Arc::new(case), Some(schedule)));
     } else {
         for i in 0..cases {
             todo.push((Arc::new(gen_case(&scenario, i, case_seed(opts.seed, i))), None));
         }
     }
 
+    #[cfg(feature = "shuttle")]
+    if args.flag("--selftest-replay") {
+        IN_CASE.store(true, Ordering::Relaxed);
+        selftest_replay(todo.into_iter().map(|t| t.0).collect(), &opts);
+        return;
+    }
     let t0 = std::time::Instant::now();
     let (mut n_cases, mut n_exec, mut blocked, mut transfers, mut failures) = (0usize, 0usize, 0usize, 0usize, 0usize);
     let mut distinct: HashSet<(u64, u64)> = HashSet::new();
@@ -1442,10 +1628,12 @@ fn main() {
     let mut dg_ops = 0usize;
     for (case, schedule) in todo {
         n_cases += 1;
+        IN_CASE.store(true, Ordering::Relaxed);
         let outs = match &schedule {
             Some(s) => replay_case(case.clone(), s, &opts),
             None => run_case(case.clone(), &opts),
         };
+        IN_CASE.store(false, Ordering::Relaxed);
         for (k, (o, sched)) in outs.iter().enumerate() {
             n_exec += 1;
             let b = o.trace.iter().filter(|l| l.starts_with("dg 0 add_edge ")).count();
@@ -1458,8 +1646,11 @@ fn main() {
             dg_ops += o.trace.iter().filter(|l| l.starts_with("dg 0 ")).count();
             blocked += b;
             transfers += t;
-            if b > 0 || contended > 0 {
-                distinct.insert((case.prog.hash(), trace_hash(&o.trace)));
+            // allocation scenarios: nontrivial = a page changed hands through `non_full_pages`
+            let alloc_case = matches!(case.spec, Spec::Alloc { .. });
+            let takes = o.trace.iter().filter(|l| l.starts_with("alloc take ")).count();
+            if b > 0 || contended > 0 || (alloc_case && takes > 0) {
+                distinct.insert((case.prog.hash() ^ fnv(case.describe().as_bytes()), trace_hash(&o.trace, alloc_case)));
             }
             for (n, c) in &o.notes {
                 *notes.entry(n).or_default() += c;
@@ -1496,6 +1687,14 @@ fn main() {
             if schedule.is_some() {
                 for l in &o.log {
                     println!("  {l}");
+                }
+                if let Some(rec) = &recorded_trace {
+                    println!(
+                        "CONC-REPLAY trace_identical={} recorded_lines={} replayed_lines={}",
+                        canon_trace(rec) == canon_trace(&o.trace),
+                        rec.len().saturating_sub(1),
+                        o.trace.len()
+                    );
                 }
             }
         }
